@@ -23,6 +23,30 @@ CHECKS = {
         engine="kotocore"),
 }
 
+def _core(prop, what, design, fam):
+    return dict(
+        category="model_checking",
+        text="Decided by the KotoCore abstract machine (spec/KotoCore.tla, explicit TLA+ transition rules encoding "
+             "docs/language_guide.md) executed by TLC on " + what + "; each predicted observation (stdout, result value "
+             "and type, error class and thrown message) is replayed into the real compiler+VM in several contexts and "
+             "layouts. Bounded exploration with an implementation-independent oracle, not a proof.",
+        design_ref=design,
+        note="Trusted: TLC, the specification as the statement of the guide, kast.py renderer. Integers inside +-10^6, "
+             "exact dyadic floats; programs the guide leaves open are discarded and counted. " + fam,
+        technique="TLA+ abstract machine executed by TLC as oracle; spec->implementation replay",
+        engine="kotocore")
+
+
+CHECKS["C02"] = _core("C02", "the argument-binding matrix (parameter kinds x argument counts x call forms), closure "
+                      "templates, random programs with nested function definitions/calls and generator programs",
+                      "DESIGN.md §5 C02", "")
+CHECKS["C03"] = _core("C03", "the subject x pattern x arm-position x guard matrix, random matches with alternatives, "
+                      "and the complete unpacking matrix", "DESIGN.md §5 C03", "")
+CHECKS["C04"] = _core("C04", "seeded programs with try/catch/finally nests and fault sites planted at every position class "
+                      "(call depth, functors, generators, interpolation, literals, handlers)", "DESIGN.md §5 C04",
+                      "Known finding F28 (finally skipped on abrupt exits) is modelled as a named deviation rule and "
+                      "its pinned inputs are reported as KNOWN-FINDING.")
+
 NOT_APPLICABLE = {
     "C20": "Codec fidelity of JSON/YAML/TOML text and two serde visitors: no state machine, and the value domain that "
            "matters (string escapes, full i64 range, float text) is outside what TLC can represent; a TLA+ model would "
@@ -68,7 +92,7 @@ def main():
             "add_only": True,
         },
         "engines": [
-            {"name": "kotocore", "path": "spec/KotoCore.tla", "serves_properties": ["C01"],
+            {"name": "kotocore", "path": "spec/KotoCore.tla", "serves_properties": ["C01", "C02", "C03", "C04"],
              "kind_free_text": "TLA+ abstract machine of the Koto language executed by TLC; predictions replayed into the implementation by harness/kv"},
         ],
         "checks": checks,
